@@ -422,6 +422,7 @@ class PteraTransformer(NodeTransformer):
             self.linenos[target.id] = target.lineno
         ann_arg = ann if ann else ast.Constant(value=None)
         value_arg = self._get("ABSENT") if value is None else value
+        pre_stmts = []
         if isinstance(target, ast.Name):
             value_args = [
                 target.id,
@@ -435,6 +436,31 @@ class PteraTransformer(NodeTransformer):
         ):
             slc = target.slice
             slc = slc.value if isinstance(target.slice, ast.Index) else slc
+            if (
+                not isinstance(slc, ast.Constant)
+                and value is not None
+                and not expression
+                and self.should_instrument(target.value.id, ann)
+            ):
+                # The index is needed both to report the key and to store
+                # the value: evaluate the value, then the index, only once
+                # and in the original order.
+                tmp_value, tmp_index = _gensym(), _gensym()
+                pre_stmts = [
+                    ast.Assign(
+                        targets=[ast.Name(id=tmp_value, ctx=ast.Store())],
+                        value=value_arg,
+                    ),
+                    ast.Assign(
+                        targets=[ast.Name(id=tmp_index, ctx=ast.Store())],
+                        value=slc,
+                    ),
+                ]
+                value_arg = ast.Name(id=tmp_value, ctx=ast.Load())
+                slc = ast.Name(id=tmp_index, ctx=ast.Load())
+                target = ast.Subscript(
+                    value=target.value, slice=slc, ctx=ast.Store()
+                )
             value_args = [
                 target.value.id,
                 self._wrap_call("__ptera_Key", "index", deepcopy(slc)),
@@ -480,12 +506,13 @@ class PteraTransformer(NodeTransformer):
             )
         else:
             return [
+                *[ast.copy_location(stmt, orig) for stmt in pre_stmts],
                 ast.Assign(
                     targets=[target],
                     value=new_value,
                     lineno=orig.lineno,
                     col_offset=orig.col_offset,
-                )
+                ),
             ]
 
     def visit_body(self, stmts):
